@@ -64,6 +64,14 @@ def matrix(thorough):
             out.append(("self-field-body/%s/%s" % (tag, op), "class K(def c: Int)\n    def %sg: Int := 0\n    def mm(self) -> Int =>\n        self.g %s 3\n        1\n" % (f, op), exp))
             out.append(("self-field-arg/%s/%s" % (tag, op), "class K(def %sc: Int)\n    def g: Int := 0\n    def mm(self) -> Int =>\n        self.c %s 3\n        1\n" % (f, op), exp))
             out.append(("param-receiver/%s/%s" % (tag, op), "class K(def c: Int)\n    def g: Int := 0\ndef ff(%so: K) -> Int =>\n    o.g %s 2\n    1\n" % (f, op), exp))
+    # `fin` on ONE component of a destructuring definition (if the parser takes it at all, it must be enforced)
+    for op in OPS:
+        for ctx in ("top", "function", "if"):
+            out.append(("tuple-element-fin/%s/%s" % (op, ctx), wrap(ctx, [], ["def (x, fin y) := (1, 2)", "y %s 3" % op]), "reject"))
+            out.append(("tuple-element-fin-first/%s/%s" % (op, ctx), wrap(ctx, [], ["def (fin x, y) := (1, 2)", "x %s 3" % op]), "reject"))
+            out.append(("tuple-element-fin-typed/%s/%s" % (op, ctx), wrap(ctx, [], ["def (x: Int, fin y: Int) := (1, 2)", "y %s 3" % op]), "reject"))
+        out.append(("for-tuple-element-fin/%s" % op, "for (x, fin y) in [(1, 2)] do\n    y %s 3\n" % op, "reject"))
+        out.append(("for-variable/%s" % op, "for i in 0 .. 3 do\n    i %s 5\n    print(i)\n" % op, "accept"))
     # reassignment with a value of another type stays rejected, of the same type accepted
     out.append(("type/same", "def x: Int := 1\nx := 2\n", "accept"))
     out.append(("type/other", "def x: Int := 1\nx := \"s\"\n", "reject"))
